@@ -7,13 +7,17 @@ package cache
 // on the Msg route or the wire route.
 
 import (
+	"encoding/json"
 	"fmt"
 	"math/rand"
+	"os"
+	"path/filepath"
 	"strings"
 	"testing"
 	"time"
 
 	"github.com/miekg/dns"
+	"github.com/semihalev/sdns/middleware"
 )
 
 var vC04ProofTTLs = []uint32{0, 1, 2, 3, 4, 5, 6, 10, 30, 60, 300, 3600, 10799, 10800, 10801, 86400, 100000}
@@ -79,17 +83,69 @@ func vC04NXProof(r *rand.Rand, zone, denied string, nowUnix int64, tight bool) *
 	return m
 }
 
+// vC04NXProofFixed: the same proof shape with one TTL for every field and one
+// signature expiration (seconds from nowUnix) — for the fixed scenarios of corpus/C04/cuts.jsonl.
+func vC04NXProofFixed(zone, denied string, nowUnix int64, ttl uint32, sigExp int64) *dns.Msg {
+	m := new(dns.Msg)
+	m.SetQuestion(denied, dns.TypeA)
+	m.Response = true
+	m.Rcode = dns.RcodeNameError
+	m.AuthenticatedData = true
+	sig := func(owner string, covered uint16) *dns.RRSIG {
+		s := vC04Sig(owner, covered, ttl, nowUnix+sigExp, zone)
+		s.OrigTtl = ttl
+		return s
+	}
+	m.Ns = []dns.RR{
+		vC04SOA(zone, ttl, ttl),
+		sig(zone, dns.TypeSOA),
+		&dns.NSEC{Hdr: dns.RR_Header{Name: "a." + zone, Rrtype: dns.TypeNSEC, Class: dns.ClassINET, Ttl: ttl}, NextDomain: "z." + zone, TypeBitMap: []uint16{dns.TypeA, dns.TypeRRSIG, dns.TypeNSEC}},
+		sig("a."+zone, dns.TypeNSEC),
+		&dns.NSEC{Hdr: dns.RR_Header{Name: zone, Rrtype: dns.TypeNSEC, Class: dns.ClassINET, Ttl: ttl}, NextDomain: "a." + zone, TypeBitMap: []uint16{dns.TypeNS, dns.TypeSOA, dns.TypeRRSIG, dns.TypeNSEC, dns.TypeDNSKEY}},
+		sig(zone, dns.TypeNSEC),
+	}
+	return m
+}
+
+// vC04CutPlan is one fixed scenario of corpus/C04/cuts.jsonl: admissions of a cut for
+// the same denied name, each followed by clock steps and descendant queries.
+type vC04CutPlan struct {
+	Name       string `json:"name"`
+	Admissions []struct {
+		TTL     uint32 `json:"ttl"`
+		SigExpS int64  `json:"sig_exp_s"`
+		LeaseMs int64  `json:"lease_ms"` // 0: no lease
+		Steps   []struct {
+			ShiftMs int64 `json:"shift_ms"`
+			Route   int   `json:"route"` // 0 1 2 as env.query, 5 Store.GetWithContext
+		} `json:"steps"`
+	} `json:"admissions"`
+}
+
 func TestVerifC04Cuts(t *testing.T) {
 	out := vC04Open(t)
 	defer out.f.Close()
 	r := rand.New(rand.NewSource(int64(vC04EnvInt("VERIF_SEED", 1)) + 4041))
 	n := vC04EnvInt("VERIF_N", 600)
+	// fixed regression inputs first (seeded change C04-5: re-recording a live cut, ...)
+	if raw, err := os.ReadFile(filepath.Join(os.Getenv("VERIF_CORPUS"), "cuts.jsonl")); err == nil {
+		for _, line := range strings.Split(string(raw), "\n") {
+			if line = strings.TrimSpace(line); line == "" || strings.HasPrefix(line, "#") {
+				continue
+			}
+			plan := new(vC04CutPlan)
+			if err := json.Unmarshal([]byte(line), plan); err != nil {
+				t.Fatalf("corpus cuts.jsonl: %v", err)
+			}
+			vC04CaseCut(out, r, plan)
+		}
+	}
 	for c := 0; c < n; c++ {
 		switch c % 4 {
 		case 0:
 			vC04CaseProofExp(out, r)
 		case 1:
-			vC04CaseCut(out, r)
+			vC04CaseCut(out, r, nil)
 		case 2:
 			vC04CaseProofServe(out, r)
 		case 3:
@@ -143,8 +199,11 @@ func vC04CaseProofExp(out *vC04Out, r *rand.Rand) {
 
 // a subtree cut: record through the store seam WriteMsg uses, then serve a
 // descendant on the Msg and the wire route across a stepped clock.
-func vC04CaseCut(out *vC04Out, r *rand.Rand) {
+func vC04CaseCut(out *vC04Out, r *rand.Rand, plan *vC04CutPlan) {
 	expire := []int{0, 5, 600, 600, 100000}[r.Intn(5)]
+	if plan != nil {
+		expire = 600
+	}
 	env := vC04NewEnv(0, 0, expire)
 	defer env.close()
 	k := env.k
@@ -153,7 +212,15 @@ func vC04CaseCut(out *vC04Out, r *rand.Rand) {
 	id := nxDomainCutID{deniedName: denied, qclass: dns.ClassINET}
 	// one to three admissions for the same denied name across clock steps: a cut
 	// re-learned while the previous one is live takes the lifetime of the NEW proof
-	for adm, nAdm := 0, 1+r.Intn(3); adm < nAdm; adm++ {
+	nAdm := 1 + r.Intn(3)
+	if plan != nil {
+		nAdm = len(plan.Admissions)
+	}
+	pre := ""
+	if plan != nil {
+		pre = "corpus-"
+	}
+	for adm := 0; adm < nAdm; adm++ {
 		tight := r.Intn(3) == 0
 		if adm == 0 && nAdm > 1 {
 			tight = r.Intn(6) == 0 // something long-lived to be replaced
@@ -170,6 +237,15 @@ func vC04CaseCut(out *vC04Out, r *rand.Rand) {
 			cutV = k.now() + int64(off)
 			cutReal = k.real(cutV)
 		}
+		if plan != nil {
+			pa := plan.Admissions[adm]
+			proof = vC04NXProofFixed(zone, denied, time.Now().Unix(), pa.TTL, pa.SigExpS)
+			hasCut, cutV, cutReal = pa.LeaseMs != 0, 0, time.Time{}
+			if hasCut {
+				cutV = k.now() + pa.LeaseMs*int64(time.Millisecond)
+				cutReal = k.real(cutV)
+			}
+		}
 		prev := cc.entries[id]
 		t0, w0 := k.now(), time.Now().UnixNano()
 		ok := env.c.store.RecordNXDomainCut(proof, denied, zone, cutReal)
@@ -183,7 +259,7 @@ func vC04CaseCut(out *vC04Out, r *rand.Rand) {
 			return
 		}
 		if !ok {
-			out.emit(map[string]any{"k": "cut-record-refused", "nontrivial": true,
+			out.emit(map[string]any{"k": pre + "cut-record-refused", "nontrivial": true,
 				"coq": fmt.Sprintf("CCutRec %d %d %d %s %s %s %d %s %d None", int64(cc.maxTTL), soa.Hdr.Ttl, soa.Minttl, vC04PRRs(proof.Ns), vC04OZ(hasCut, cutV),
 					vC04Z(t1), w1, vC04Z(t1), w1),
 				"desc": map[string]any{"proof": proof.String(), "cut": fmt.Sprint(hasCut, cutV)}})
@@ -217,14 +293,18 @@ func vC04CaseCut(out *vC04Out, r *rand.Rand) {
 			kr = "" // refused: keep serving what is there, against ITS expiry
 		}
 		if kr != "" {
-			out.emit(map[string]any{"k": kr, "nontrivial": true, "go_fail": fail,
+			out.emit(map[string]any{"k": pre + kr, "nontrivial": true, "go_fail": fail,
 				"coq": fmt.Sprintf("CCutRec %d %d %d %s %s %s %d %s %d (sz %s)", int64(cc.maxTTL), soa.Hdr.Ttl, soa.Minttl, vC04PRRs(entry.msg.Ns), vC04OZ(hasCut, cutV),
 					vC04Z(nowV), wall, vC04Z(t1), w1, vC04Z(expV)),
 				"desc": map[string]any{"proof": proof.String(), "cut": fmt.Sprint(hasCut, cutV), "life": life.String()}})
 		}
 
 		// serve descendants while stepping towards and past the expiry
-		for s, steps := 0, 2+r.Intn(3); s < steps; s++ {
+		steps := 2 + r.Intn(3)
+		if plan != nil {
+			steps = len(plan.Admissions[adm].Steps)
+		}
+		for s := 0; s < steps; s++ {
 			now := k.now()
 			var target int64
 			pick := r.Intn(5)
@@ -249,10 +329,14 @@ func vC04CaseCut(out *vC04Out, r *rand.Rand) {
 					target = now + r.Int63n(span+1)
 				}
 			}
+			route := []int{0, 1, 2, 2, 5}[r.Intn(5)]
+			if plan != nil {
+				ps := plan.Admissions[adm].Steps[s]
+				target, route = now+ps.ShiftMs*int64(time.Millisecond), ps.Route
+			}
 			if target > now {
 				vC04Shift(env.c, k, time.Duration(target-now))
 			}
-			route := []int{0, 1, 2, 2, 5}[r.Intn(5)]
 			qname := []string{"a.b.GONE.c04cut.test.", "gone.c04cut.test.", "x.gone.c04cut.test."}[r.Intn(3)]
 			var rep vC04Reply
 			if route == 5 {
@@ -279,7 +363,7 @@ func vC04CaseCut(out *vC04Out, r *rand.Rand) {
 					sfail = "cut TTL exceeds the time remaining"
 				}
 			}
-			kk := fmt.Sprintf("cut-serve-route%d", route)
+			kk := fmt.Sprintf("%scut-serve-route%d", pre, route)
 			if rep.cutWire {
 				kk += "-wire"
 			}
@@ -290,7 +374,7 @@ func vC04CaseCut(out *vC04Out, r *rand.Rand) {
 			out.emit(map[string]any{"k": kk, "nontrivial": true, "go_fail": sfail,
 				"coq":  fmt.Sprintf("CCutServe %d %s %s %s %s %s", route, vC04Z(expV), vC04Z(rep.t0), vC04Z(rep.t1), vC04Z(ttl), bound),
 				"desc": map[string]any{"qname": qname, "expires_in": expV - rep.t0, "ttl": ttl, "route": route, "wire": rep.cutWire}})
-			if ttl < 0 {
+			if ttl < 0 && plan == nil {
 				break
 			}
 		}
@@ -554,4 +638,81 @@ func vC04CaseProofHist(out *vC04Out, r *rand.Rand) {
 	lookup()
 	out.emit(map[string]any{"k": "proof-history", "nontrivial": true, "go_fail": fail,
 		"coq": fmt.Sprintf("CProofHist %s [%s]", vC04Z(int64(maxTTL)), strings.Join(steps, "; ")), "desc": desc})
+}
+
+// the RFC 8198 proof index through the whole pipeline: a denial synthesised from
+// the index is served directly and adopted by an alias from another zone; whatever is
+// served or re-cached from it ends with the earliest piece of the proof.
+func vC04CaseProofTree(out *vC04Out, r *rand.Rand) {
+	env := vC04NewEnv(0, 0, 600)
+	defer env.close()
+	k := env.k
+	zone, denied, alias := "c04pt.test.", "m.c04pt.test.", "www.c04.test."
+	proof := vC04NXProof(r, zone, denied, time.Now().Unix(), r.Intn(2) == 0)
+	var leaseReal time.Time
+	if r.Intn(3) == 0 {
+		leaseReal = k.real(k.now() + int64(time.Duration(2+r.Intn(30))*time.Second) + int64(r.Intn(900))*int64(time.Millisecond))
+	}
+	if !env.c.store.RecordDenialProof(proof, zone, middleware.ValidatedNegativeProofNSEC, leaseReal) {
+		return // refused at admission (a non-positive term): judged by the proof-expiry cases
+	}
+	pexp := func() (int64, bool) {
+		var p int64
+		found := false
+		for _, e := range env.c.store.denialProofs.byID {
+			if x := k.virt(e.expires); !found || x < p {
+				p, found = x, true
+			}
+		}
+		return p, found
+	}
+	// the alias lives in another zone, so its own name is not covered by the proof
+	am := new(dns.Msg)
+	am.SetQuestion(alias, dns.TypeA)
+	am.Response = true
+	am.Answer = []dns.RR{&dns.CNAME{Hdr: dns.RR_Header{Name: alias, Rrtype: dns.TypeCNAME, Class: dns.ClassINET, Ttl: []uint32{3, 60, 300, 3600}[r.Intn(4)]}, Target: denied}}
+	asc := &vC04Script{resp: am, cutKey: 9}
+	if r.Intn(3) == 0 {
+		asc.hasCut, asc.cut = true, k.now()+int64(time.Duration(2+r.Intn(40))*time.Second)+int64(r.Intn(900))*int64(time.Millisecond)
+	}
+	env.stub.script[alias] = asc
+	for s, steps := 0, 3+r.Intn(4); s < steps; s++ {
+		P, ok := pexp()
+		if !ok {
+			return
+		}
+		now := k.now()
+		target := now
+		switch r.Intn(6) {
+		case 0:
+			target = P - int64(2600*time.Millisecond)
+		case 1:
+			target = P - int64(1400*time.Millisecond)
+		case 2:
+			target = P - int64(300*time.Millisecond)
+		case 3:
+			target = P + int64(300*time.Millisecond)
+		case 4:
+			if P > now {
+				target = now + r.Int63n(P-now+1)
+			}
+		}
+		if target > now {
+			vC04Shift(env.c, k, time.Duration(target-now))
+		}
+		qname := alias
+		if r.Intn(3) == 0 {
+			qname = denied
+		}
+		route := []int{0, 1, 2, 3}[r.Intn(4)]
+		do := r.Intn(4) > 0
+		preAlias := env.peek(vC04Key(alias, false))
+		preDenied := env.peek(vC04Key(denied, false))
+		rep := env.query(route, qname, do, false, nil, "")
+		postAlias := env.peek(vC04Key(alias, false))
+		postDenied := env.peek(vC04Key(denied, false))
+		out.emit(map[string]any{"k": "dbg-proof-tree", "inconclusive": true, "desc": map[string]any{
+			"q": qname, "route": route, "do": do, "P_in": P - rep.t0, "stubbed": rep.stubbed, "reply": fmt.Sprint(rep.msg), "bound": rep.bound, "bound_minus_t0": rep.boundV - rep.t0,
+			"preAlias": vC04Ent(k, preAlias), "preDenied": vC04Ent(k, preDenied), "postAlias": vC04Ent(k, postAlias), "postDenied": vC04Ent(k, postDenied), "t0": rep.t0}})
+	}
 }
